@@ -23,3 +23,61 @@ package util
 //@   trusted
 //@   pure
 //@   ensures result == crcmask(c)
+
+// util.Hash is the definition of the extern spec function hashfn (it reads only its arguments).
+//@ spec func hashfn(b bytes, seed uint32) uint32 = extern util.Hash
+
+//@ func Hash
+//@   props C16
+//@   mode bv
+//@   safety on
+//@   loop 1
+//@     invariant 0 <= i && i <= n && n == len(data) - len(data)%4 && i%4 == 0
+//@     decreases n - i
+//@   defines hashfn(data, seed)
+
+// ---------------------------------------------------------------------------
+// util.Buffer (used as filter.Buffer by the table writer)
+
+//@ pred (b *Buffer).bwf = 0 <= b.off && b.off <= len(b.buf)
+
+//@ func makeSlice
+//@   trusted
+//@   pure
+//@   ensures len(result) == n && freshbase(result)
+
+//@ func (*Buffer).Len
+//@   props C16
+//@   requires bwf(b)
+//@   ensures result == len(b.buf) - b.off && result >= 0
+
+//@ func (*Buffer).Reset
+//@   props C16
+//@   requires bwf(b)
+//@   ensures bwf(b) && len(b.buf) == 0 && b.off == 0 && samebase(b.buf, old(b.buf)) && cap(b.buf) == cap(old(b.buf))
+//@   modifies b.buf, b.off
+
+//@ func (*Buffer).tryGrowByReslice
+//@   props C16
+//@   requires bwf(b) && n >= 0
+//@   ensures [grown] ret1 ==> (ret0 == len(old(b.buf)) && len(b.buf) == ret0 + n && samebase(b.buf, old(b.buf)) && cap(b.buf) == cap(old(b.buf)))
+//@   ensures [not-grown] !ret1 ==> (sameslice(b.buf, old(b.buf)) && n > cap(b.buf) - len(b.buf))
+//@   ensures b.off == old(b.off)
+//@   modifies b.buf
+
+//@ func (*Buffer).grow
+//@   props C16
+//@   requires bwf(b) && 0 <= n && n <= 1099511627776
+//@   ensures bwf(b)
+//@   ensures [length] len(b.buf) - b.off == (len(old(b.buf)) - old(b.off)) + n
+//@   ensures [index] result == len(b.buf) - n && result >= b.off
+//@   ensures [content] forall k int :: 0 <= k && k < len(old(b.buf)) - old(b.off) ==> b.buf[b.off + k] == old(b.buf)[old(b.off) + k]
+
+//@ func (*Buffer).Alloc
+//@   props C16
+//@   requires bwf(b) && 0 <= n && n <= 1099511627776
+//@   ensures bwf(b)
+//@   ensures [exact] len(result) == n
+//@   ensures [length] len(b.buf) - b.off == (len(old(b.buf)) - old(b.off)) + n
+//@   ensures [tail] samebase(result, b.buf[len(b.buf) - n:])
+//@   ensures [content] forall k int :: 0 <= k && k < len(old(b.buf)) - old(b.off) ==> b.buf[b.off + k] == old(b.buf)[old(b.off) + k]
